@@ -2,6 +2,9 @@ package rules
 
 import (
 	"fmt"
+	"go/constant"
+	"go/token"
+	"go/types"
 	"sort"
 	"strings"
 
@@ -106,12 +109,15 @@ func literalVerbatim(x *Ctx) {
 					}
 					ts := u.Type().String()
 					if strings.HasSuffix(ts, "datamodel.Node") || strings.HasSuffix(ts, "ipld.Node") || strings.Contains(ts, "basicnode.") {
+						if internedExactly(x, gl, u) {
+							continue
+						}
 						shared += fmt.Sprintf("%s: %s reads the package-level node %s: a value that merely compares equal to the one it was built from would be replaced by it\n", x.P.Pos(in.Pos()), load.ShortName(g), gl.Name())
 					}
 				}
 			}
 		}
-		x.C.Obl("C10.R4", "fresh-nodes:"+name, x.pos(f), "nodes are built from the caller's value, not taken from package-level variables", shared == "", dedupLines(shared))
+		x.C.Obl("C10.R4", "fresh-nodes:"+name, x.pos(f), "nodes are built from the caller's value; a package-level node stands in only for the one bool, integer or string it was built from", shared == "", dedupLines(shared))
 	}
 }
 
@@ -232,4 +238,94 @@ func impureStep(x *Ctx, v ssa.Value, seen map[ssa.Value]bool, depth int) string 
 		return "it is computed: " + t.String()
 	}
 	return ""
+}
+
+// internedExactly: the read u of the package-level node gl happens only where the caller's value is known to be
+// the very constant gl was built from, and for a type whose == is identity of the IPLD value (bool, integers,
+// strings). Floats are not such a type: -0.0 == 0.0.
+func internedExactly(x *Ctx, gl *ssa.Global, u *ssa.UnOp) bool {
+	// the constant the node was built from: exactly one store, in the package initialiser
+	var cv *ssa.Const
+	stores := 0
+	for _, m := range gl.Pkg.Members {
+		g, ok := m.(*ssa.Function)
+		if !ok {
+			continue
+		}
+		fs := append([]*ssa.Function{g}, g.AnonFuncs...)
+		for _, h := range fs {
+			for _, b := range h.Blocks {
+				for _, in := range b.Instrs {
+					st, ok := in.(*ssa.Store)
+					if !ok || st.Addr != ssa.Value(gl) {
+						continue
+					}
+					stores++
+					v := st.Val
+					if mi, ok := v.(*ssa.MakeInterface); ok {
+						v = mi.X
+					}
+					if c, ok := v.(*ssa.Call); ok && len(c.Call.Args) == 1 && h.Name() == "init" {
+						if k, ok := c.Call.Args[0].(*ssa.Const); ok {
+							if cal := c.Call.StaticCallee(); cal != nil && cal.Pkg != nil && cal.Pkg.Pkg.Path() == "github.com/ipld/go-ipld-prime/node/basicnode" {
+								cv = k
+							}
+						}
+					}
+				}
+			}
+		}
+	}
+	if cv == nil || stores != 1 || cv.Value == nil {
+		return false
+	}
+	if bt, ok := cv.Type().Underlying().(*types.Basic); !ok || bt.Info()&(types.IsBoolean|types.IsInteger|types.IsString) == 0 {
+		return false
+	}
+	// the nearest test that decides whether the read happens
+	b := u.Block()
+	for d := b.Idom(); d != nil; b, d = d, d.Idom() {
+		iff, ok := d.Instrs[len(d.Instrs)-1].(*ssa.If)
+		if !ok {
+			continue
+		}
+		var taken int = -1
+		for i, sc := range d.Succs {
+			if sc == b && len(sc.Preds) == 1 {
+				taken = i
+			}
+		}
+		if taken < 0 {
+			continue
+		}
+		cond, want := iff.Cond, taken == 0
+		for {
+			if n, ok := cond.(*ssa.UnOp); ok && n.Op == token.NOT {
+				cond, want = n.X, !want
+				continue
+			}
+			break
+		}
+		if bo, ok := cond.(*ssa.BinOp); ok && (bo.Op == token.EQL || bo.Op == token.NEQ) {
+			if bo.Op == token.NEQ {
+				want = !want
+			}
+			for _, pr := range [][2]ssa.Value{{bo.X, bo.Y}, {bo.Y, bo.X}} {
+				k, ok := pr[1].(*ssa.Const)
+				if !ok || k.Value == nil || !want {
+					continue
+				}
+				if constant.Compare(k.Value, token.EQL, cv.Value) && impureStep(x, pr[0], map[ssa.Value]bool{}, 0) == "" {
+					return true
+				}
+			}
+			return false
+		}
+		// a bool value tested directly
+		if cv.Value.Kind() == constant.Bool && impureStep(x, cond, map[ssa.Value]bool{}, 0) == "" {
+			return constant.BoolVal(cv.Value) == want
+		}
+		return false
+	}
+	return false
 }
